@@ -14,7 +14,7 @@
    Definitions only; proofs are in Proofs.v.
 
    Variants are records of defect flags: [Repaired] has none and is the behaviour for which the property theorems
-   are proved; [Head] is what /repo HEAD implements (five findings still open); [Defective] has every defect ever
+   are proved; [Head] is what /repo HEAD implements (four flag findings still open); [Defective] has every defect ever
    recorded (the tree before any fix) and is kept for the historical refutation witnesses only.
    Choices Go leaves open (which free address Allocate returns, Go map iteration order in the containment
    walks) are modelled as a list of candidate successor states; the driver follows the candidate that the
@@ -44,10 +44,10 @@ Record variant := mkV {
 }.
 Definition Repaired : variant := mkV false false false false false false false false false false.
 (* the code at /repo HEAD.  Fixed there (flag off): constant fall-back d1 (24c9504), expiry take-over d3 (58e16d0),
-   unresolved answer d4 (d5fadd1), pending ACK d6 (b04c868), nil pool d7 (d114f02).  Still present: unchecked release
-   d2, untracked out-of-pool statics d5, restore keeps a conflicting address d8, VRF-blind walk / override d9,
-   AAA prefix of another length overlapping a delegation pool d10. *)
-Definition Head : variant := mkV false true false false true false true true true false.
+   unresolved answer d4 (d5fadd1), pending ACK d6 (b04c868), nil pool d7 (d114f02), AAA prefix overlapping a
+   delegation pool d10 (23daa44).  Still present: unchecked release
+   d2, untracked out-of-pool statics d5, restore keeps a conflicting address d8, VRF-blind walk / override d9. *)
+Definition Head : variant := mkV false true false false true false true true false false.
 Definition Defective : variant := mkV true true true true true true true true true true.
 Inductive fam := F4 | F6 | FD.
 Definition fam_eqb (a b : fam) : bool :=
@@ -283,6 +283,39 @@ Definition release_ip (v : variant) (f : fam) (x : item) (vrf s : N) (r : reg) :
   | _ => [release_all v f x s r0]
   end.
 
+(* Reserve{IP,IANA,PD}InPool / Release{IP,IANA,PD}InPool (used by the HA sync receiver for the sessions the active
+   node checkpoints to the standby): the pool NAMED by the key - looked up among the pools of THAT family, the same
+   name may exist in another family - when there is one, otherwise the first pool of the family that contains the
+   address (any VRF, Go map order: one candidate each); no containing pool: nothing is recorded (a prefix that
+   overlaps a delegation pool without being one of its delegations is refused, 23daa44). *)
+Definition reserve_named (v : variant) (f : fam) (key : option N) (x : item) (s : N) (r : reg) : list (reg * bool) :=
+  match (match key with Some k => find (fun p => p_key p =? k) (fam_pools f r) | None => None end) with
+  | Some p => [reserve_in r p x s]
+  | None =>
+      match filter (fun p => contains p x) (fam_pools f r) with
+      | [] => [(r, match f with
+                   | FD => d10 v || negb (existsb (fun p => pfx_overlaps_net (p_geom p) x) (fam_pools FD r))
+                   | _ => true
+                   end)]
+      | cs => map (fun p => reserve_in r p x s) cs
+      end
+  end.
+Definition release_named (v : variant) (f : fam) (key : option N) (x : item) (s : N) (r : reg) : list reg :=
+  match (match key with Some k => find (fun p => p_key p =? k) (fam_pools f r) | None => None end) with
+  | Some p => match raw_slot (p_geom p) x with
+              | Some sl => [upd_pool r (pool_release v p sl s)]
+              | None => [r]
+              end
+  | None =>
+      match filter (fun p => contains p x) (fam_pools f r) with
+      | [] => [r]
+      | cs => map (fun p => match slot_of (p_geom p) x with
+                            | Some sl => upd_pool r (pool_release v p sl s)
+                            | None => r
+                            end) cs
+      end
+  end.
+
 (* ---------------------------------------------------------------- DHCPv4 local provider lease table *)
 Record lease := mkLease { l_ip : N; l_mac : N; l_sid : N; l_pool : option N; l_exp : bool }.
 (* a subscriber session (defined here because the opdb store below keeps session images) *)
@@ -472,7 +505,9 @@ Inductive op :=
 | IA (sid : N)
 | IM (sid : N)       (* a SOLICIT arrives while the session waits for AAA / creation: only its DUID is recorded *)
 | IC (sid vrf : N) (s4 o4 s6 : option N) (spd : option item) (o6 od : option N)
-| IE (sid : N).      (* lease expiry: cleanupSessions reaps the session *)
+| IE (sid : N)       (* lease expiry: cleanupSessions reaps the session *)
+| HR (f : fam) (key : option N) (x : item) (sid : N)   (* HA sync: Reserve*InPool for a session of the peer node *)
+| HL (f : fam) (key : option N) (x : item) (sid : N).  (* HA sync: Release*InPool *)
     (* component level: handleAAAResponse builds the allocator context from all AAA attributes before any pending
        packet is replayed (at function level ID / IS build it on first use, with their own family's attributes) *)
 
@@ -488,7 +523,8 @@ Inductive out :=
 | ORel (ir : bool)
 | ORel6
 | ORestart
-| OIa.
+| OIa
+| OHa (ok : bool).
 
 Definition fallback_addr : N := 1681915905.   (* 100.64.0.1 *)
 
@@ -563,12 +599,17 @@ Definition step_pa (v : variant) (st : state) (s : sess) (vrf : N) (s4 s6 : opti
       end)
     end).
 
-(* IPCP Configure-Request from the peer (after it acknowledged ours): ipcp.ProcessConfReq + onIPCPUp *)
-Definition pi_upd (s : sess) (a4 : option N) : sess :=
+(* IPCP Configure-Request from the peer (after it acknowledged ours): ipcp.ProcessConfReq + onIPCPUp.
+   Only an acknowledged request opens IPCP (this-layer-up -> onIPCPUp); after a Configure-Nak or -Reject the peer
+   sends another request, so several exchanges per authentication are possible.  A Nak'ed or rejected proposal
+   leaves NOTHING behind: a later request without an IP-Address option is acknowledged and the address assigned in
+   startNCP stays the recorded one. *)
+Definition pi_upd (s : sess) (a4 : option N) (opened : bool) : sess :=
   mkSess (s_id s) true (s_prof4 s) (s_prof6 s) (s_mac s) (s_live s) true (s_vrf s) (s_ov4 s) (s_ov6 s)
-         (s_ovd s) a4 (s_a6 s) (s_ad s) (s_p4 s) (s_p6 s) (s_told s) true None None None.
+         (s_ovd s) a4 (s_a6 s) (s_ad s) (s_p4 s) (s_p6 s) (s_told s) opened None None None.
 Definition pi_res (st : state) (s : sess) (a4 : option N) (r : pires) : list (state * out) :=
-  [(mkState (st_reg st) (put_sess (pi_upd s a4) (st_sess st)) (st_prov st), OPi r a4)].
+  let opened := match r with PiAck _ => true | _ => false end in
+  [(mkState (st_reg st) (put_sess (pi_upd s a4 opened) (st_sess st)) (st_prov st), OPi r a4)].
 Definition step_pi (st : state) (s : sess) (a : option N) : list (state * out) :=
   match s_told s with
   | None => pi_res st s (s_a4 s) PiNoReply
@@ -917,6 +958,18 @@ Definition step (v : variant) (st : state) (o : op) : list (state * out) :=
                   then [(mkState (st_reg st) (put_sess (mark_duid false s) (st_sess st)) (st_prov st), OSkip)]
                   else skip st
       | None => skip st
+      end
+  | HR f key x sid =>
+      (* sid names a session of the peer node: no local session has that id *)
+      match find_sess sid st with
+      | Some _ => skip st
+      | None => map (fun c : reg * bool => (mkState (fst c) (st_sess st) (st_prov st), OHa (snd c)))
+                    (reserve_named v f key x sid (st_reg st))
+      end
+  | HL f key x sid =>
+      match find_sess sid st with
+      | Some _ => skip st
+      | None => map (fun r' => (mkState r' (st_sess st) (st_prov st), OHa true)) (release_named v f key x sid (st_reg st))
       end
   | IE sid =>
       match find_sess sid st with
